@@ -258,6 +258,60 @@ pub fn check<S: Src>(s: &mut S) {
 """
 
 
+CO_DERIVED_COPY = """
+// `Clone` for itself does not depend on what is requested alongside: with Copy in the same list, in another list, through either entry point, clone() still
+// clones field by field (the field type is Copy with a hand-written, call-recording Clone)
+#[derive_ex(Clone)]
+pub struct Q0 { pub a: RC, pub b: RC }
+#[derive_ex(Clone, Copy)]
+pub struct Q1 { pub a: RC, pub b: RC }
+#[derive_ex(Copy)]
+#[derive_ex(Clone)]
+pub struct Q2 { pub a: RC, pub b: RC }
+#[derive(Ex)]
+#[derive_ex(Copy, Clone)]
+pub struct Q3 { pub a: RC, pub b: RC }
+#[derive_ex(Clone)]
+pub enum N0 { A(RC), B { x: RC }, C }
+#[derive_ex(Copy, Clone)]
+pub enum N1 { A(RC), B { x: RC }, C }
+
+pub fn check<S: Src>(s: &mut S) {
+    let (p, q) = (s.u8(), s.u8());
+    trace_reset();
+    let c0 = Q0 { a: RC(p), b: RC(q) }.clone();
+    let t0 = trace_take();
+    trace_reset();
+    let c1 = Q1 { a: RC(p), b: RC(q) }.clone();
+    let t1 = trace_take();
+    trace_reset();
+    let c2 = Q2 { a: RC(p), b: RC(q) }.clone();
+    let t2 = trace_take();
+    trace_reset();
+    let c3 = Q3 { a: RC(p), b: RC(q) }.clone();
+    let t3 = trace_take();
+    assert!(c0.a.0 == c1.a.0 && c0.b.0 == c1.b.0 && trace_same(&t0, &t1), "clone-differs-with-copy-in-list");
+    assert!(c0.a.0 == c2.a.0 && trace_same(&t0, &t2), "clone-differs-with-copy-in-other-list");
+    assert!(c0.a.0 == c3.a.0 && trace_same(&t0, &t3), "clone-differs-with-copy-derive-entry");
+    let sel = s.below(3);
+    trace_reset();
+    let e0 = match sel { 0 => N0::A(RC(p)), 1 => N0::B { x: RC(q) }, _ => N0::C }.clone();
+    let u0 = trace_take();
+    trace_reset();
+    let e1 = match sel { 0 => N1::A(RC(p)), 1 => N1::B { x: RC(q) }, _ => N1::C }.clone();
+    let u1 = trace_take();
+    assert!(trace_same(&u0, &u1) && matches!(e0, N0::C) == matches!(e1, N1::C), "enum-clone-differs-with-copy");
+}
+
+"""
+
+
+def build_co_derived_copy(name):
+    desc = "Clone alone vs Clone with Copy requested alongside (same list, other list, derive entry)"
+    src = e1.HEADER.format(pid=PID, name=name, desc=desc) + CO_DERIVED_COPY + e1.harness(unwind=18)
+    return kani_runner.Program(name, src, "co-derived-copy|clone", desc, True)
+
+
 def build_field_level(name):
     desc = "field- and variant-level derive_ex lists: merged vs split vs split in the other order, both entry points"
     src = e1.HEADER.format(pid=PID, name=name, desc=desc) + FIELD_LEVEL + e1.harness(unwind=18)
@@ -274,6 +328,7 @@ def run(tier):
         if body_id not in ("clone-default", "type-level", "debug-helpers"):
             progs.append(build("p%05d" % len(progs), body_id, rnd, tier, superset=True))
     progs.append(build_field_level("p%05d" % len(progs)))
+    progs.append(build_co_derived_copy("p%05d" % len(progs)))
     try:
         eng, obl = e3_kernel(out)
         extra = {"e3_obligations": obl.total, "e3_discharged": obl.discharged, "e3_functions": obl.functions, "e3_solver_time_s": round(obl.solver_time, 2)}
